@@ -35,12 +35,12 @@ COMPONENTS = {"real": ["SCSI facade (all 38 methods)", "all command classes", "g
               "stubs": ["sgio module", "iscsi module", "virtual /dev", "plain recording device object (MockDevice shape)"],
               "simulated_peers": ["scripted recording LU decoding CDBs with t10/cdb.py layouts and answering with t10/resp.py encoders + nonce"]}
 ASSUMPTIONS = [
-    "argument names are transcribed from the docstrings of scsi.py; where a docstring value for a default is stale only the *name* is used",
-    "'a default reaches the CDB' is checked as: the field holds the default of the command class constructor's signature (inspect), skipped if not introspectable",
+    "argument names and integer defaults ('name = N, ...') are read at check time from the docstrings of scsi.py",
+    "'a default reaches the CDB' is checked twice: the field holds the default the facade docstring states, and the default of the command class constructor's signature (inspect; skipped if not introspectable)",
     "the opcode is compared with the attached command set's own entry (its T10-correctness is C14, not claimed)",
     "whether decoded *values* are right is C04; here cmd.result must equal the class's own unmarshall_datain of the final buffer and differ from that of the untouched buffer",
 ]
-REQUIRED_PROBES = ["plain", "sgio", "iscsi", "decode_after_execute", "all_optionals", "no_optionals", "reattached", "history_call", "faulted_call"]
+REQUIRED_PROBES = ["plain", "sgio", "iscsi", "decode_after_execute", "all_optionals", "no_optionals", "reattached", "history_call", "faulted_call", "documented_default_ok"]
 
 SET_TYPE = {"spc": 3, "sbc": 0, "ssc": 1, "smc": 8, "mmc": 5}
 
@@ -139,6 +139,33 @@ def defining_sets(method):
 
 ALIAS = {"alloc_len": "alloclen", "range": "rng", "c2e1": "c2ei"}
 _DOC = {}
+_DOCDEF = {}
+
+
+def documented_defaults(method):
+    """{canonical optional name: integer default the facade docstring states ('name = N, ...')}"""
+    if method in _DOCDEF:
+        return _DOCDEF[method]
+    import re
+    from pyscsi.pyscsi.scsi import SCSI
+    out = {}
+    inblk = False
+    opt = API[method]["opt"]
+    for line in (getattr(SCSI, method).__doc__ or "").splitlines():
+        if ":param kwargs:" in line:
+            inblk = True
+            line = " " + line.split(":param kwargs:", 1)[1]
+        elif inblk and (":param" in line or ":return" in line):
+            inblk = False
+        if inblk:
+            mm = re.match(r"^\s+([A-Za-z_][A-Za-z_0-9]*)\s*=\s*(0x[0-9a-fA-F]+|\d+)\b", line)
+            if mm:
+                n = mm.group(1)
+                c = n if n in opt else ALIAS.get(n, n)
+                if c in opt:
+                    out[c] = int(mm.group(2), 0)
+    _DOCDEF[method] = out
+    return out
 
 
 def documented_optionals(method):
@@ -682,6 +709,18 @@ def _one_call(cfg, op, ctx):
                 if f.get(field) != dflt[name] & ((1 << max(bits, 1)) - 1 if bits < 15 else (1 << 64) - 1):
                     V.append(dict(oracle="C13.default-lost", where=where, detail=name,
                                   expected="default %s=%r in CDB field %s when omitted" % (name, dflt[name], field), actual="field holds %r" % (f.get(field),)))
+        # ... and so do the defaults the facade's documentation states ("curdata = 1, ...")
+        given = set(doc.get(k, k) for k in kw)
+        for name, dv in documented_defaults(method).items():
+            field, bits = a["opt"][name]
+            if name in given or field is None:
+                continue
+            if f.get(field) != dv & ((1 << max(bits, 1)) - 1 if bits < 15 else (1 << 64) - 1):
+                V.append(dict(oracle="C13.documented-default-lost", where=where, detail=name,
+                              expected="documented default %s = %r in CDB field %s when the argument is omitted" % (name, dv, field),
+                              actual="field holds %r" % (f.get(field),)))
+            else:
+                WORLD.probe("documented_default_ok")
         if a.get("plist"):
             if f.get("pll") != len(d["dataout"]):
                 V.append(dict(oracle="C13.parameter-list-length", where=where, detail="pll",
